@@ -57,14 +57,18 @@ mcview == <<pc, loc, guards, tl, nstate, budget, flush, alive, bad, memvars>>
 TL0 == [nested |-> 0, regions |-> 0, since |-> 0, scanIt |-> 0, idx |-> E0 % NumEpochs, rl |-> [i \in EpIdx |-> {}], rg |-> FALSE]
 L0 == [op |-> "none", g |-> 0, c |-> 0, p |-> 0, fresh |-> 0, epoch |-> 0, u |-> 0, n |-> 0, after |-> "idle", was |-> FALSE, adopted |-> {}]
 
+\* operations per thread (a definition the configurations may override: asymmetric programs keep weak-memory runs small)
+OpsOf(t) == MaxOps
+FlushOf(t) == MaxFlush
+MayStart(t, op) == TRUE
 Init == /\ MemInit
         /\ pc = [t \in Threads |-> "idle"]
         /\ loc = [t \in Threads |-> L0]
         /\ guards = [t \in Threads |-> [g \in 1 .. NG |-> 0]]
         /\ tl = [t \in Threads |-> TL0]
         /\ nstate = [n \in Nodes |-> IF n <= NCells THEN "live" ELSE "free"]
-        /\ budget = [t \in Threads |-> MaxOps]
-        /\ flush = [t \in Threads |-> MaxFlush]
+        /\ budget = [t \in Threads |-> OpsOf(t)]
+        /\ flush = [t \in Threads |-> FlushOf(t)]
         /\ alive = [t \in Threads |-> TRUE]
         /\ bad = "ok"
         /\ last = [t |-> -1, k |-> "init", lab |-> "init", v |-> 0, ok |-> 1, n |-> 0]
@@ -77,11 +81,12 @@ Min(a, b) == IF a < b THEN a ELSE b
 
 \* delete_objects: plain write to every payload; deleting something that is not retired is an error of its own
 Delete(t, S) == /\ nstate' = [n \in Nodes |-> IF n \in S THEN "des" ELSE nstate[n]]
-                /\ bad' = IF bad = "ok" /\ \E n \in S : nstate[n] # "ret" THEN "deleted a node that is not retired" ELSE bad
+                /\ bad' = IF bad = "ok" /\ \E n \in S : nstate[n] # "ret" THEN "deleted a node that is not retired"
+                          ELSE IF bad = "ok" /\ \E n \in S : PlainWrRaces(t, PAY(n)) THEN "delete races with an access to the object" ELSE bad
 
 \* ---------------------------------------------------------------- client operations
 Begin(t, op, g, c, first, cost) ==
-  /\ pc[t] = "idle" /\ alive[t]
+  /\ pc[t] = "idle" /\ alive[t] /\ MayStart(t, op)
   /\ IF cost THEN budget[t] > 0 /\ budget' = [budget EXCEPT ![t] = @ - 1] /\ UNCHANGED flush
      ELSE /\ \A u \in Threads : pc[u] = "idle" /\ budget[u] = 0 /\ ~tl[u].rg      \* flush cycles run one at a time once every program is over
           /\ flush[t] > 0 /\ flush' = [flush EXCEPT ![t] = @ - 1] /\ UNCHANGED budget
@@ -103,7 +108,7 @@ Touch(t) == /\ pc[t] = "idle" /\ alive[t]
             /\ UNCHANGED <<pc, loc, guards, tl, nstate, budget, flush, alive, last>>
 \* thread exit: ~thread_data hands the retire lists to the orphan lists (one CAS per non-empty list)
 StartExit(t) == /\ pc[t] = "idle" /\ alive[t] /\ budget[t] = 0 /\ \A g \in 1 .. NG : guards[t][g] = 0 /\ ~tl[t].rg
-                /\ \A u \in Threads : flush[u] = MaxFlush        \* threads exit before the final flush phase
+                /\ \A u \in Threads : flush[u] = FlushOf(u)        \* threads exit before the final flush phase
                 /\ loc' = [loc EXCEPT ![t] = [L0 EXCEPT !.op = "exit", !.n = 0]]
                 /\ Goto(t, "x_orph") /\ Acc(t, "call", "exit", 0, 1)
                 /\ UNCHANGED <<guards, tl, nstate, budget, flush, alive, bad, memvars>>
@@ -300,11 +305,12 @@ op_done(t) ==
   /\ CASE loc[t].op = "replace" /\ guards[t][loc[t].g] # 0 /\ FreshIds # {} ->
             /\ \E n \in FreshIds : /\ loc' = [loc EXCEPT ![t].fresh = n, ![t].op = "replace2"]
                                    /\ nstate' = [nstate EXCEPT ![n] = "live"]
+                                   /\ FreshWr(t, PAY(n), 0)           \* the constructor writes the payload
             /\ Goto(t, "x_cas") /\ UNCHANGED guards
        [] loc[t].op = "flushcycle" /\ guards[t][loc[t].g] # 0 ->      \* the idle cycle ends with a reset
-            /\ loc' = [loc EXCEPT ![t].op = "flushreset"] /\ Goto(t, "r_begin") /\ UNCHANGED <<nstate, guards>>
-       [] OTHER -> Goto(t, "idle") /\ UNCHANGED <<loc, nstate, guards>>
-  /\ UNCHANGED <<tl, budget, flush, alive, bad, last, memvars>>
+            /\ loc' = [loc EXCEPT ![t].op = "flushreset"] /\ Goto(t, "r_begin") /\ UNCHANGED <<nstate, guards, memvars>>
+       [] OTHER -> Goto(t, "idle") /\ UNCHANGED <<loc, nstate, guards, memvars>>
+  /\ UNCHANGED <<tl, budget, flush, alive, bad, last>>
 x_cas(t) == /\ pc[t] = "x_cas"
             /\ LET x == CELL(loc[t].c) old == guards[t][loc[t].g] IN
                IF Latest(x) = old
